@@ -100,6 +100,19 @@ type gatedConn struct {
 	perWrite bool
 	armSeq   int
 	usedSeq  int
+	// recRejected: Writes that arrive after Close are refused at once (0, io.ErrClosedPipe) and remembered, so that
+	// the scheduler can report them as events (writer-level tier)
+	recRejected bool
+	rejected    [][]byte
+}
+
+// takeRejected returns (and forgets) the Writes the closed socket has refused since the last call.
+func (g *gatedConn) takeRejected() [][]byte {
+	g.mu.Lock()
+	defer g.mu.Unlock()
+	r := g.rejected
+	g.rejected = nil
+	return r
 }
 
 func (g *gatedConn) SetWriteDeadline(t time.Time) error {
@@ -132,6 +145,9 @@ func (g *gatedConn) Write(p []byte) (int, error) {
 		return g.Conn.Write(p)
 	}
 	if g.closed {
+		if g.recRejected {
+			g.rejected = append(g.rejected, append([]byte(nil), p...))
+		}
 		g.mu.Unlock()
 		return 0, io.ErrClosedPipe
 	}
